@@ -196,6 +196,23 @@ def check(case):
         for nm, key in (("do", "do_interventions"), ("noise", "noise_interventions"), ("shift", "shift_interventions")):
             if spec.get(nm):
                 kw[key] = _interventions(spec[nm], "dict")
+        if (k + p) % 2 == 0 and p >= 2:
+            # a copy of the model (shallow / deep / pickled, in turn) is used in between, with a do-intervention on a variable
+            # this call does not touch; afterwards both objects must still answer with the law of what they are asked
+            import copy
+            import pickle
+            how = (k + p) // 2 % 3
+            mk = lib((lambda: copy.copy(model)) if how == 0 else (lambda: copy.deepcopy(model)) if how == 1 else (lambda: pickle.loads(pickle.dumps(model))))
+            if mk.ok:
+                twin = mk.value
+                free = [t for t in range(p) if str(t) not in spec.get("do", {})]
+                t = free[k % len(free)] if free else 0
+                lib(twin.sample, population=True, do_interventions={t: (7, 2)})
+                _compare_call(model, law_k, kw, p, "law_depends_on_a_copy", "law_depends_on_a_copy",
+                              "call %r on the model after a %s of it was sampled under do(%d); %s" % (kw, ["copy.copy", "copy.deepcopy", "pickle round trip"][how], t, ctx))
+                _compare_call(twin, law_k, kw, p, "copy_law_wrong", "copy_law_wrong",
+                              "call %r on a %s of the model; %s" % (kw, ["copy.copy", "copy.deepcopy", "pickle round trip"][how], ctx))
+                continue
         _compare_call(model, law_k, kw, p, "law_depends_on_earlier_calls", "law_depends_on_earlier_calls",
                       "call #%d %r on the same model after %r; %s" % (k + 2, kw, kwargs, ctx))
     if not ((keep[0] == Warr).all() and (keep[1] == means).all() and (keep[2] == variances).all()):
